@@ -9,7 +9,15 @@
 (*   Filter   (no forward here) GetMaxTS, shift, CollectTS(end) -> "prelock"  *)
 (*   Compute  under the channel lock: swallow / re-shift / ticks -> "presend" *)
 (*   Send     SendTargetMsg (lock already released)             -> idle      *)
-(* Deviation switches: AtomicSend (TRUE = compute+send atomic, repaired),    *)
+(*   Start    (only when some Seek[s] > 0: a resume) StartReadCollection of  *)
+(*            the stream's collection with its checkpoint as seek position:   *)
+(*            the first one creates the channel handler and initialises the   *)
+(*            channel clock from its seek position (InitTSInfo), every later  *)
+(*            one joins the handler and lifts the clock to its own seek       *)
+(*            position (AddCollection -> collectionSourceSeekPosition).       *)
+(* Deviation switches: JoinLifts (TRUE = as built; FALSE = a joining          *)
+(*                     collection does not lift the clock - negative control),*)
+(*                     AtomicSend (TRUE = compute+send atomic, repaired),    *)
 (*                     TickFix   (TRUE = closing tick of a tick-only pack is *)
 (*                                the channel clock, not the pack's EndTs).  *)
 EXTENDS Integers, Sequences, FiniteSets, TLC, Json
@@ -17,22 +25,32 @@ EXTENDS Integers, Sequences, FiniteSets, TLC, Json
 CONSTANTS Streams,      \* set of stream names (strings)
           Script,       \* Script[s] : sequence of packs [b, e, ms] ; ms = sorted sequence of message ts (empty = tick-only)
           Floor,        \* resume floor: clock initialised from the seek position (0 = fresh start)
+          Seek,         \* Seek[s] : checkpoint time the stream's collection is resumed from (0 = none); all 0 = no Start steps
+          CollOf,       \* CollOf[s] : name of the stream's collection (for the plan output)
+          JoinLifts,
+          StartAllFirst, \* TRUE = repaired: nothing is read before every collection of the channel has been started;
+                         \* FALSE = as built: a collection started later with a higher checkpoint lifts the clock too late
           AtomicSend, TickFix,
           SwallowAllowed \* TRUE: tick-only packs may be swallowed (timer not expired) - wall-clock dependent in the code
 
-VARIABLES idx, pc, loc, cts, lts, out, cseq, hist
+VARIABLES idx, pc, loc, cts, lts, out, cseq, hist,
+          started,   \* streams whose collection has been started
+          fl         \* ghost: highest checkpoint among the started streams = what the channel had emitted before the pause
 
-vars == <<idx, pc, loc, cts, lts, out, cseq, hist>>
-view == <<idx, pc, loc, cts, lts, out>>
+vars == <<idx, pc, loc, cts, lts, out, cseq, hist, started, fl>>
+view == <<idx, pc, loc, cts, lts, out, started, fl>>
 
 Max(a, b) == IF a > b THEN a ELSE b
-NoPack == [b |-> 0, e |-> 0, ms |-> <<>>, src |-> <<>>, tick |-> 0, open |-> 0, k |-> 0, cs |-> 0]
+NoPack == [b |-> 0, e |-> 0, ms |-> <<>>, src |-> <<>>, tick |-> 0, open |-> 0, k |-> 0, cs |-> 0, fl |-> 0]
+Resume == \E s \in Streams : Seek[s] > 0
 
 Init == /\ idx = [s \in Streams |-> 0]
         /\ pc = [s \in Streams |-> "idle"]
         /\ loc = [s \in Streams |-> NoPack]
         /\ cts = Floor /\ lts = 0
         /\ out = <<>> /\ cseq = 0 /\ hist = <<>>
+        /\ started = IF Resume THEN {} ELSE Streams
+        /\ fl = 0
 
 \* tsManager.CollectTS
 Collect(c, ts) == IF c = 0 \/ c < ts THEN ts ELSE c
@@ -47,18 +65,30 @@ Reset(p, new) == [p EXCEPT !.ms = [i \in 1..Len(p.ms) |-> new + DeltaAt(p.ms, i)
                            !.b = new + 1,
                            !.e = new + DeltaAt(p.ms, Len(p.ms))]
 
-Feed(s) == /\ pc[s] = "idle" /\ idx[s] < Len(Script[s])
+\* StartReadCollection of the collection of stream s (resume from its checkpoint)
+Start(s) == /\ s \notin started
+            /\ started' = started \cup {s}
+            /\ cts' = IF started = {} THEN Seek[s]                         \* startReadChannel: InitTSInfo(cts = seek ts)
+                       ELSE IF JoinLifts THEN Collect(cts, Seek[s])         \* AddCollection: CollectTS(seek ts)
+                       ELSE cts
+            /\ fl' = Max(fl, Seek[s])
+            /\ hist' = Append(hist, [op |-> "start", c |-> CollOf[s],
+                                     seek |-> IF Seek[s] > 0 THEN <<[ch |-> "sa", id |-> "ckpt-" \o CollOf[s], ts |-> Seek[s]]>> ELSE <<>>])
+            /\ UNCHANGED <<idx, pc, loc, lts, out, cseq>>
+
+Feed(s) == /\ pc[s] = "idle" /\ idx[s] < Len(Script[s]) /\ s \in started
+           /\ (StartAllFirst => started = Streams)
            /\ LET p == Script[s][idx[s] + 1] IN
                 /\ loc' = [loc EXCEPT ![s] = [b |-> p.b, e |-> p.e, ms |-> p.ms, src |-> p.ms, tick |-> 0, open |-> 0,
-                                              k |-> idx[s] + 1, cs |-> 0]]
+                                              k |-> idx[s] + 1, cs |-> 0, fl |-> fl]]
                 /\ hist' = Append(hist, [op |-> "feed", s |-> s,
                                          pack |-> [id |-> s \o "#" \o ToString(idx[s] + 1), b |-> p.b, e |-> p.e,
                                                    msgs |-> [i \in 1..Len(p.ms) |-> [k |-> "ins", ts |-> p.ms[i], p |-> "_default"]]]])
            /\ idx' = [idx EXCEPT ![s] = @ + 1]
            /\ pc' = [pc EXCEPT ![s] = "start"]
-           /\ UNCHANGED <<cts, lts, out, cseq>>
+           /\ UNCHANGED <<cts, lts, out, cseq, started, fl>>
 
-Step(s) == hist' = Append(hist, [op |-> "step", g |-> s])
+Step(s) == hist' = Append(hist, [op |-> "step", g |-> s]) /\ UNCHANGED <<started, fl>>
 
 CollectStep(s) == /\ pc[s] = "start"
                   /\ cts' = Collect(cts, loc[s].b)
@@ -105,11 +135,11 @@ SendStep(s) == /\ pc[s] = "presend"
                /\ pc' = [pc EXCEPT ![s] = "idle"] /\ loc' = [loc EXCEPT ![s] = NoPack]
                /\ UNCHANGED <<idx, cts, lts, cseq>> /\ Step(s)
 
-Next == \E s \in Streams : Feed(s) \/ CollectStep(s) \/ FilterStep(s) \/ ComputeStep(s) \/ SendStep(s)
+Next == \E s \in Streams : Start(s) \/ Feed(s) \/ CollectStep(s) \/ FilterStep(s) \/ ComputeStep(s) \/ SendStep(s)
 
 Spec == Init /\ [][Next]_vars
 
-Done == \A s \in Streams : pc[s] = "idle" /\ idx[s] = Len(Script[s])
+Done == started = Streams /\ \A s \in Streams : pc[s] = "idle" /\ idx[s] = Len(Script[s])
 
 (* ---------------- contract (C03) over the emitted sequence of one channel ---------------- *)
 TickMonotone          == \A i \in 1..Len(out)-1 : out[i].tick <= out[i+1].tick
@@ -121,7 +151,15 @@ OrderKept == \A i, j \in 1..Len(out) : out[i].s = out[j].s =>
                 \A m \in 1..Len(out[i].ms), n \in 1..Len(out[j].ms) :
                    /\ (out[i].src[m] < out[j].src[n] => out[i].ms[m] < out[j].ms[n])
                    /\ (out[i].src[m] = out[j].src[n] => out[i].ms[m] = out[j].ms[n])
-AboveFloor == \A i \in 1..Len(out) : \A m \in 1..Len(out[i].ms) : out[i].ms[m] > Floor
+\* across pause/resume: a collection resumed from a checkpoint with time t means the channel had carried a closing tick
+\* >= t before the pause; everything emitted after the resume has to lie above the highest checkpoint (strict).
+\* Weak form (known finding C03_resume_start_order): only the collections started before the pack was READ count.
+MaxSeek == LET S == {Seek[s] : s \in Streams} IN CHOOSE x \in S : \A y \in S : y <= x
+AboveFloorF(f(_)) == \A i \in 1..Len(out) : /\ \A m \in 1..Len(out[i].ms) : out[i].ms[m] > Floor /\ out[i].ms[m] > f(i)
+                                            /\ out[i].tick >= f(i)
+AboveFloor == LET f(i) == MaxSeek IN AboveFloorF(f)
+AboveFloorWeak == LET f(i) == out[i].fl IN AboveFloorF(f)
+C03weak == TickMonotone /\ DataAboveEarlierTicks /\ DataBelowOwnTick /\ OrderKept /\ AboveFloorWeak
 C03 == TickMonotone /\ DataAboveEarlierTicks /\ DataBelowOwnTick /\ OrderKept /\ AboveFloor
 
 PlanOut == Done => PrintT("PLAN " \o ToJson(hist))
